@@ -494,3 +494,31 @@ def _traces_to(fn, op, callee, depth=10):
                 continue
             ok = False
     return ok
+
+
+def run_S_header(rep, g, pairs=(('read::lists::ListsHeader::size_for_encoding', 'read::lists::parse_header'),)):
+    """S-header: a header-size model equals the bytes its parser consumes (constant bytes summed, symbolic atoms counted).
+    `rnglists_base`/`loclists_base` defaults for split units are computed from this size."""
+    from . import eff as E
+    rep.rule('S-header', 'size model ≡ parser: the value returned by the header-size function (constant + symbolic terms) equals the bag of '
+             'reader atoms on every success path of the header parser (TRUNC does not consume)')
+    ef = E.Eff(g)
+    n = 0
+    for size_fn, parse_fn in pairs:
+        sf, pf = g.fn(size_fn), g.fn(parse_fn)
+        st = E.size_terms(sf, ['c', [0]])
+        seqs = E.seqs_to_json(ef.paths(pf, 0))
+        key = '%s~%s' % (size_fn.split('::')[-1], parse_fn.split('::')[-1])
+        n += 1
+        if st is None or not seqs:
+            rep.bad('S-header', key, 'cannot summarise: size model %s, parser sequences %s' % (st, seqs), sf.loc())
+            continue
+        want = (st[0], tuple(sorted(st[1].items())))
+        bags = set()
+        for s_ in seqs:
+            c, sym = E.bag_of([a for a in s_ if a != 'TRUNC'])
+            bags.add((c, tuple(sorted(sym))))
+        rep.check('S-header', key, bags == {want}, 'size model %s; parser consumes %s' % (want, sorted(bags)), sf.loc(),
+                  why='bag equality of the size model and the parser')
+    rep.floor('S-header', 'header size models', n, 1)
+    return n
